@@ -51,6 +51,12 @@ class DensityEstimator(ABC):
         # switch variables to the centre and width of the interval
         c = 0.5 * (lwr + upr)
         w = upr - lwr
+        if not w > 0:
+            # the requested fraction holds less than one sample, so the sample gives
+            # no starting interval: start from the mode, with the width over which
+            # the peak density integrates to the requested fraction
+            c = self.mode
+            w = fraction / self(self.mode)
 
         simplex = array([[c, w], [c, 0.95 * w], [c - 0.05 * w, w]])
         weight = 0.2 / self(self.mode)
